@@ -35,12 +35,26 @@ type aobj struct {
 	nonEmp uint8 // m: 1 may be empty 2 may be non-empty
 	bad    bool
 	typ    types.Type
+	// m, in table mode only: entries under constant string keys, in insertion
+	// order (ents == nil: abstract)
+	ents    map[string]AV
+	entPos  map[string]token.Pos
+	entKeys []string
 }
 
 func (o *aobj) clone() *aobj {
 	n := *o
 	n.fields = append([]AV(nil), o.fields...)
 	n.elems = append([]AV(nil), o.elems...)
+	if o.ents != nil {
+		n.ents = make(map[string]AV, len(o.ents))
+		n.entPos = make(map[string]token.Pos, len(o.ents))
+		for k, v := range o.ents {
+			n.ents[k] = v
+			n.entPos[k] = o.entPos[k]
+		}
+		n.entKeys = append([]string(nil), o.entKeys...)
+	}
 	return &n
 }
 
@@ -131,6 +145,9 @@ func (h *Heap) gc(fr *frame, up *stackLink) {
 		}
 		markAV(o.v, seen, &work, 0)
 		markAV(o.join, seen, &work, 0)
+		for _, ev := range o.ents {
+			markAV(ev, seen, &work, 0)
+		}
 		for _, f := range o.fields {
 			markAV(f, seen, &work, 0)
 		}
@@ -211,10 +228,14 @@ type frame struct {
 	fn   *ssa.Function
 	vals map[ssa.Value]AV
 	cnt  map[*ssa.Phi]int // per-path count of back-edge updates (widening)
+	// fuzzy: this activation has followed both sides of an integer comparison it
+	// could not decide (a loop bound that is not known): the counters computed
+	// along such a path may not be reachable together with its other facts
+	fuzzy bool
 }
 
 func (f *frame) clone() *frame {
-	n := &frame{fn: f.fn, vals: make(map[ssa.Value]AV, len(f.vals)+8)}
+	n := &frame{fn: f.fn, vals: make(map[ssa.Value]AV, len(f.vals)+8), fuzzy: f.fuzzy}
 	for k, v := range f.vals {
 		n.vals[k] = v
 	}
@@ -266,6 +287,8 @@ type Exec struct {
 	caller AV
 	traceReturns bool
 	cli    bool // interpreting cmd/jpgo: library calls are modelled, not inlined
+	truncP *bool // shared truncation flag of the rule's aggregate
+	tableMode bool // evaluating the function-table constructor: maps keep their constant-keyed entries, loops are unrolled further
 	onExit func(status AV, h *Heap, p pathInfo) // os.Exit in the command (J-ABS)
 	onPanic func(arg AV, h *Heap, p pathInfo)    // an explicit panic (API rules)
 	pendingFV []AV // captured variables for the function literal about to be entered
@@ -451,7 +474,10 @@ func (x *Exec) fromAtoms(T types.Type, a Atoms, from AV) AV {
 			return AV{k: 'B', tri: t}
 		}
 		// a boxed enumeration constant (a token, a node type) keeps its value
-		return AV{k: 'N', n: from.n, nk: from.nk, pos: from.nk && from.n >= 1, nn: from.nk && from.n >= 0}
+		if _, isNamed := T.(*types.Named); isNamed && from.nk {
+			return AV{k: 'N', n: from.n, nk: true, pos: from.n >= 1, nn: from.n >= 0}
+		}
+		return AV{k: 'N'}
 	case *types.Slice:
 		v := AV{k: 'L', atoms: a, elemK: x.elemKind(u.Elem()), prov: from.prov, obj: from.obj, bad: from.bad}
 		if a&ANilSlice != 0 {
@@ -746,6 +772,10 @@ func stateKey(fr *frame, h *Heap) string {
 		}
 		o.v.writeKeyM(&b, m)
 		o.join.writeKeyM(&b, m)
+		if o.ents != nil {
+			// table mode: the number of entries identifies the state well enough (entries are only added)
+			b.WriteString("e" + strconv.Itoa(len(o.ents)))
+		}
 		for _, f := range o.fields {
 			f.writeKeyM(&b, m)
 			b.WriteByte(';')
@@ -783,7 +813,7 @@ func (a *activation) block(b *ssa.BasicBlock, prev *ssa.BasicBlock, fr *frame, h
 					fr.cnt = map[*ssa.Phi]int{}
 				}
 				fr.cnt[ph]++
-				if fr.cnt[ph] > 8 {
+				if fr.cnt[ph] > x.widenAfter() || (fr.fuzzy && fr.cnt[ph] > 2 && !x.tableMode) {
 					nv = AV{k: 'N', pos: nv.n >= 1}
 				}
 			}
@@ -821,7 +851,13 @@ func (a *activation) instrs(b *ssa.BasicBlock, idx int, fr *frame, h *Heap, p pa
 	for i := idx; i < len(b.Instrs); i++ {
 		x.steps++
 		if x.steps > x.limit {
+			if os.Getenv("EXEC_GAPDBG") != "" && !x.trunc {
+				fmt.Fprintf(os.Stderr, "TRUNC %s in %s\n", x.label, fname(fr.fn))
+			}
 			x.trunc = true
+			if x.truncP != nil {
+				*x.truncP = true
+			}
 			return
 		}
 		in := b.Instrs[i]
@@ -832,6 +868,13 @@ func (a *activation) instrs(b *ssa.BasicBlock, idx int, fr *frame, h *Heap, p pa
 				cv = AV{k: 'B', tri: 3}
 			}
 			both := cv.tri == 3
+			if both {
+				if bo, ok := in.Cond.(*ssa.BinOp); ok {
+					if xv := x.val(fr, bo.X); xv.k == 'N' {
+						fr.fuzzy = true
+					}
+				}
+			}
 			pT, pF := p, p
 			if cv.tag != "" {
 				pT, pF = p.note(cv.tag+"=true"), p.note(cv.tag+"=false")
@@ -997,8 +1040,8 @@ func (x *Exec) simple(in ssa.Instruction, fr *frame, h *Heap) bool {
 		case xv.k == 'P' && xv.obj != 0:
 			fr.vals[in] = AV{k: 'A', obj: xv.obj, idx: in.Field}
 		case xv.k == 'A' && xv.obj != 0 && h.objs[xv.obj] != nil && h.objs[xv.obj].kind == 'l' && xv.idx >= 0 && xv.idx < len(h.objs[xv.obj].elems) && h.objs[xv.obj].elems[xv.idx].k == 'G':
-			// field of a struct element of a concrete list of constant aggregates
-			fr.vals[in] = AV{k: 'A', agg: h.objs[xv.obj].elems[xv.idx].agg, idx: in.Field, what: "agg"}
+			// field of a struct element of a concrete list: (object, element, field)
+			fr.vals[in] = AV{k: 'A', obj: xv.obj, idx: xv.idx, n: int64(in.Field), nk: true, what: "elemfield"}
 		case xv.k == 'A' && xv.what == "aggelem" && xv.agg != nil && xv.idx >= 0 && xv.idx < len(xv.agg.elems) && xv.agg.elems[xv.idx].k == 'G':
 			fr.vals[in] = AV{k: 'A', agg: xv.agg.elems[xv.idx].agg, idx: in.Field, what: "agg"}
 		case xv.k == 'A' && xv.obj != 0:
@@ -1031,6 +1074,17 @@ func (x *Exec) simple(in ssa.Instruction, fr *frame, h *Heap) bool {
 		if mv.obj != 0 {
 			if o := h.mut(mv.obj); o != nil && o.kind == 'm' {
 				o.nonEmp = 2
+				if o.ents != nil {
+					if kv := x.val(fr, in.Key); kv.k == 'S' && kv.sk {
+						if _, dup := o.ents[kv.s]; !dup {
+							o.entKeys = append(o.entKeys, kv.s)
+						}
+						o.ents[kv.s] = vv
+						o.entPos[kv.s] = in.Pos()
+					} else {
+						o.ents, o.entPos, o.entKeys = nil, nil, nil // a key that is not a constant: the table is not evaluable
+					}
+				}
 				o.join = joinAV(o.join, vv)
 				if vv.k == 'I' && (vv.atoms&(ABad|AExpref|AInterp) != 0 || vv.bad) {
 					o.bad = true
@@ -1038,7 +1092,11 @@ func (x *Exec) simple(in ssa.Instruction, fr *frame, h *Heap) bool {
 			}
 		}
 	case *ssa.MakeMap:
-		id := h.alloc(&aobj{kind: 'm', nonEmp: 1})
+		o := &aobj{kind: 'm', nonEmp: 1}
+		if x.tableMode {
+			o.ents, o.entPos = map[string]AV{}, map[string]token.Pos{}
+		}
+		id := h.alloc(o)
 		fr.vals[in] = AV{k: 'M', tri: 2, obj: id}
 	case *ssa.MakeSlice:
 		lv := x.val(fr, in.Len)
@@ -1190,6 +1248,18 @@ func (x *Exec) store(addr, val AV, h *Heap, in ssa.Instruction) {
 	if o == nil {
 		return
 	}
+	if addr.k == 'A' && addr.what == "elemfield" {
+		// a field of a struct element: the element's aggregate is copied before it is changed
+		if addr.idx >= 0 && addr.idx < len(o.elems) {
+			if e := o.elems[addr.idx]; e.k == 'G' && e.agg != nil && int(addr.n) < len(e.agg.fields) {
+				na := &aggVal{fields: append([]AV(nil), e.agg.fields...), elems: e.agg.elems, table: e.agg.table}
+				na.fields[addr.n] = val
+				e.agg = na
+				o.elems[addr.idx] = e
+			}
+		}
+		return
+	}
 	switch addr.k {
 	case 'P':
 		switch o.kind {
@@ -1232,6 +1302,14 @@ func (x *Exec) store(addr, val AV, h *Heap, in ssa.Instruction) {
 }
 
 func (x *Exec) load(addr AV, t types.Type, h *Heap, in ssa.Instruction) AV {
+	if addr.k == 'A' && addr.what == "elemfield" {
+		if o := h.objs[addr.obj]; o != nil && addr.idx >= 0 && addr.idx < len(o.elems) {
+			if e := o.elems[addr.idx]; e.k == 'G' && e.agg != nil && int(addr.n) < len(e.agg.fields) {
+				return e.agg.fields[addr.n]
+			}
+		}
+		return x.opaqueOf(t, "load")
+	}
 	if addr.k == 'A' && addr.agg != nil && addr.what == "aggelem" {
 		if addr.idx >= 0 && addr.idx < len(addr.agg.elems) {
 			return addr.agg.elems[addr.idx]
@@ -1412,6 +1490,11 @@ func (x *Exec) indexAddr(in *ssa.IndexAddr, fr *frame, h *Heap) bool {
 			// children of a node: arity is Shape S2's obligation
 		case known && n < min:
 			x.ev("index-const", in, true, "")
+		case known && exact && !syntactic && fr.fuzzy:
+			// a computed index on a path that went both ways at an undecided integer
+			// test (an unknown loop bound): not a verdict; the path ends here
+			x.ev("index-computed", in, true, "")
+			return false
 		case known && exact:
 			x.ev("index-const", in, false, fmt.Sprintf("constant index %d on a slice of length %d", n, min))
 			return false
@@ -1655,4 +1738,11 @@ func (x *Exec) libMethodType(T types.Type) bool {
 		return false
 	}
 	return x.c.Prog.MethodSets.MethodSet(T).Len() > 0
+}
+
+func (x *Exec) widenAfter() int {
+	if x.tableMode {
+		return 400
+	}
+	return 8
 }
